@@ -21,6 +21,7 @@ OUTPUT = 'MachineWiring.v'
 SRC_MACHINE = 'nextline/fsm/machine.py'
 SRC_CALLBACK = 'nextline/fsm/callback.py'
 SRC_CONFIG = 'nextline/fsm/config.py'
+SRC_IMP = 'nextline/imp.py'
 
 
 class WiringError(Exception):
@@ -593,6 +594,30 @@ def config_names(repo: Path):
     return states, sorted(set(triggers)), cbs
 
 
+
+# ---------------------------------------------------------------- Imp: the argument shape of the trigger calls
+def imp_trigger_calls(repo: Path):
+    """every `self._machine.<m>(...)` call of class Imp: (Imp method, m, number of positional arguments,
+    keyword names).  Starred arguments fail closed."""
+    tree = ast.parse((repo / SRC_IMP).read_text())
+    out = []
+    found = False
+    for node in tree.body:
+        if isinstance(node, ast.ClassDef) and node.name == 'Imp':
+            found = True
+            for fn in node.body:
+                if not isinstance(fn, (ast.FunctionDef, ast.AsyncFunctionDef)):
+                    continue
+                for n in ast.walk(fn):
+                    if (isinstance(n, ast.Call) and isinstance(n.func, ast.Attribute)
+                            and is_self_attr(n.func.value, '_machine')):
+                        if any(isinstance(a, ast.Starred) for a in n.args) or any(k.arg is None for k in n.keywords):
+                            fail(n, 'starred arguments in a trigger call of Imp')
+                        out.append((fn.name, n.func.attr, len(n.args), [k.arg for k in n.keywords]))
+    if not found:
+        raise WiringError('class Imp not found')
+    return out
+
 # ---------------------------------------------------------------- entry point
 def translate(repo: Path) -> str:
     repo = Path(repo)
@@ -605,6 +630,7 @@ def translate(repo: Path) -> str:
     if c_annot:
         raise WiringError(f'class-level annotations in Callback: {c_annot}')
     states, triggers, cbs = config_names(repo)
+    imp_calls = imp_trigger_calls(repo)
 
     m_names = {m[0] for m in m_methods}
     c_names = {m[0] for m in c_methods}
@@ -637,7 +663,7 @@ def translate(repo: Path) -> str:
         return '[\n' + ';\n'.join(rows) + ' ]'
 
     out = [
-        f'(** GENERATED by translate/machine_wiring.py from {SRC_MACHINE}, {SRC_CALLBACK} and the names of',
+        f'(** GENERATED by translate/machine_wiring.py from {SRC_MACHINE}, {SRC_CALLBACK}, the trigger calls of {SRC_IMP} and the names of',
         f'    {SRC_CONFIG} (ast, CPython 3.12) -- do not edit. *)',
         'From Coq Require Import List String.',
         'From NL Require Import Life.MachineSyntax.',
@@ -656,6 +682,10 @@ def translate(repo: Path) -> str:
         'Definition config_states : list string := ' + coq_list(q(s) for s in states) + '.',
         'Definition config_triggers : list string := ' + coq_list(q(t) for t in triggers) + '.',
         'Definition config_before_names : list string := ' + coq_list(q(n) for _, n in cbs) + '.',
+        '',
+        f'(** {SRC_IMP}: every call `self._machine.<m>(...)` of class Imp: (Imp method, m, positional arguments, keyword names) *)',
+        'Definition imp_trigger_calls : list (string * string * nat * list string) := '
+        + coq_list(f'({q(a)}, {q(b)}, {n}, {coq_list(q(k) for k in kws)})' for a, b, n, kws in imp_calls) + '.',
         '',
     ]
     return '\n'.join(out)
